@@ -42,6 +42,16 @@ func (c *Ctx) triage() *triageFile {
 	return t
 }
 
+// triageEntry looks an accepted site up by rule and key.
+func (c *Ctx) triageEntry(rule, key string) (triageEntry, bool) {
+	for _, e := range c.triage().Accepted {
+		if e.Property == c.R.Property && e.Key == c.R.Property+"/"+rule+"/"+key {
+			return e, true
+		}
+	}
+	return triageEntry{}, false
+}
+
 // censusRegion returns the repository functions reachable from the entries.
 func (c *Ctx) censusRegion(entries []*ssa.Function, stop func(*ssa.Function) bool) []*ssa.Function {
 	g := c.Graph()
